@@ -55,7 +55,18 @@ func runC14(c *fw.Case) {
 	steps := 1 + r.Intn(200)
 	everBytes := uint64(0)
 	sawDelPresent, sawReadd, flushed := false, false, false
+	// a small pool of value slices that are passed again and again (the SAME slice object under several keys and
+	// for equal-length overwrites): the memstore keeps the caller's slice, so it must never write into one
+	shared := [][]byte{[]byte("on"), []byte("of"), []byte("xy"), []byte("12345678"), []byte("abcdefgh")}
+	sharedCopy := make([]string, len(shared))
+	for i := range shared {
+		sharedCopy[i] = string(shared[i])
+	}
 	val := func() []byte {
+		if r.Intn(4) == 0 {
+			c.Obs("shared_value_slices_passed", 1)
+			return shared[r.Intn(len(shared))]
+		}
 		switch r.Intn(5) {
 		case 0:
 			return []byte{}
@@ -125,7 +136,7 @@ func runC14(c *fw.Case) {
 					sawReadd = true
 					c.Obs("readd_after_tombstone", 1)
 				}
-				model[ks] = &c14ent{val: v}
+				model[ks] = &c14ent{val: append([]byte{}, v...)}
 			}
 		case 2, 3, 4: // Upsert
 			if r.Intn(25) == 0 {
@@ -146,7 +157,7 @@ func runC14(c *fw.Case) {
 				sawReadd = true
 				c.Obs("readd_after_tombstone", 1)
 			}
-			model[ks] = &c14ent{val: v}
+			model[ks] = &c14ent{val: append([]byte{}, v...)}
 		case 5: // Delete
 			note(fmt.Sprintf("Delete(%x)", k))
 			err := m.Delete(k)
@@ -219,6 +230,11 @@ func runC14(c *fw.Case) {
 	}
 	if est := m.EstimatedSizeInBytes(); est > 4*everBytes+64 {
 		c.Violate("memstore/estimate-wrapped", "EstimatedSizeInBytes()=%d although only %d bytes were ever passed in\ntrace: %v", est, everBytes, trace)
+	}
+	for i := range shared {
+		if string(shared[i]) != sharedCopy[i] {
+			c.Violate("memstore/wrote-into-callers-slice", "a value slice handed to Add/Upsert was modified by the memstore: %q became %q\ntrace: %v", sharedCopy[i], shared[i], trace)
+		}
 	}
 	if m.Size() != len(model) {
 		c.Violate("memstore/Size", "Size()=%d want %d\ntrace: %v", m.Size(), len(model), trace)
